@@ -212,6 +212,15 @@ pub fn image_pool() -> Vec<String> {
         "C:\\Users\\me\\logo.png", "./assets/logo.svg", "a&b", "a<b", "a>b", "a\"b", "a'b", "&amp;", "]]>", "--", "<!-- x -->", "\"/><script>alert(1)</script><image href=\"",
         "x y", "tab\there", "caf\u{e9}.png", "\u{65e5}\u{672c}.png", "&#x41;", "&lt;", "a&", "&", "<", "\"", "'",
     ].iter().map(|s| s.to_string()).collect();
+    // XML specials combined with non-ASCII text, special first / last / both sides (escaping must work on characters, not bytes)
+    for sp in ["&", "<", ">", "\"", "'"] {
+        for na in ["\u{e9}", "\u{65e5}\u{672c}", "\u{1F600}", "J\u{e9}r\u{f4}me"] {
+            v.push(format!("a{sp}{na}.png"));
+            v.push(format!("{na}{sp}b"));
+            v.push(format!("{na}{sp}{na}"));
+        }
+    }
+    v.push("https://example.com/logo?size=64&label=caf\u{e9}".into());
     v.push("u".repeat(10_000));
     v
 }
